@@ -11,8 +11,52 @@ Definition c_qm : Z := 63.     (* '?' *)
 Definition c_colon : Z := 58.  (* ':' *)
 Definition c_lbr : Z := 91.    (* '[' *)
 
-(* SQLite GLOB restricted to '*' and '?' (character classes '[...]' are not
-   modelled and not generated): case-sensitive, whole-string match *)
+Definition c_rbr : Z := 93.    (* ']' *)
+Definition c_caret : Z := 94.  (* '^' *)
+Definition c_dash : Z := 45.   (* '-' *)
+
+(* SQLite GLOB (sqlite3.c patternCompare with matchAll = '*', matchOne = '?',
+   matchSet = '[', no escape): case-sensitive, whole-string match, characters
+   are code points.
+
+   A character class.  [c] is the character read from the string, [k] what has
+   to be done with the rest of the pattern after the closing ']' ([glob] passes
+   "match the rest of the string").  [class_loop] is the  while( c2 && c2!=']' )
+   loop; [prior] is prior_c (0 = no lower end of a range available), the
+   lookahead [hi] is pattern[0].  Running out of pattern (c2 == 0) is NOMATCH:
+   an unterminated class matches nothing. *)
+Section GlobClass.
+  Variable k : str -> bool.
+  Variable c : Z.
+  Variable invert : bool.
+  Fixpoint class_loop (seen : bool) (prior : Z) (q : str) {struct q} : bool :=
+    match q with
+    | [] => false
+    | c2 :: q' =>
+        if Z.eqb c2 c_rbr then xorb seen invert && k q'
+        else match q' with
+             | [] => false
+             | hi :: q'' =>
+                 if Z.eqb c2 c_dash && negb (Z.eqb hi c_rbr) && Z.ltb 0 prior
+                 then class_loop (seen || (Z.leb prior c && Z.leb c hi)) 0 q''
+                 else class_loop (seen || Z.eqb c c2) c2 q'
+             end
+    end.
+  (* after the optional '^': a ']' in first position is an ordinary member *)
+  Definition class_first (q : str) : bool :=
+    match q with
+    | [] => false
+    | c2 :: q' => if Z.eqb c2 c_rbr then class_loop (Z.eqb c c_rbr) 0 q'
+                  else class_loop false 0 q
+    end.
+End GlobClass.
+(* after the '[' *)
+Definition class_match (k : str -> bool) (c : Z) (q : str) : bool :=
+  match q with
+  | [] => false
+  | c2 :: q' => if Z.eqb c2 c_caret then class_first k c true q' else class_first k c false q
+  end.
+
 Fixpoint glob (p s : str) : bool :=
   match p with
   | [] => match s with [] => true | _ => false end
@@ -22,7 +66,9 @@ Fixpoint glob (p s : str) : bool :=
               glob p' s || match s with [] => false | _ :: s' => star s' end) s
       else match s with
            | [] => false
-           | d :: s' => (Z.eqb c c_qm || Z.eqb c d) && glob p' s'
+           | d :: s' => if Z.eqb c c_lbr
+                        then class_match (fun q => glob q s') d p'
+                        else (Z.eqb c c_qm || Z.eqb c d) && glob p' s'
            end
   end.
 
